@@ -30,6 +30,29 @@ pub struct JobOut {
     pub warmup_rounds: u64,
 }
 
+/// learns the shared-object set: the default execution, the non-preemptive interleavings and a
+/// stride through the single-preemption schedules, repeated until the set stops growing; returns
+/// the number of rounds and the statistics of a round in which an execution failed
+pub fn warmup(run: &mut schedx::RunFn) -> (u64, Option<ExploreStats>) {
+    let mut rounds = 0;
+    loop {
+        rounds += 1;
+        let before = schedx::shared_ids().len();
+        let mut st = ExploreStats::default();
+        let roots = schedx::frontier(run, 1, &mut st);
+        let stride = (roots.len() / 48).max(1);
+        for r in roots.into_iter().step_by(stride) {
+            schedx::explore_subtree(run, r, 0, 40, &mut st);
+        }
+        if !st.failures.is_empty() {
+            return (rounds, Some(st));
+        }
+        if schedx::shared_ids().len() == before || rounds > 6 {
+            return (rounds, None);
+        }
+    }
+}
+
 /// worker side: reads one Job (JSON) from stdin, prints one JobOut (JSON)
 pub fn worker_main() -> i32 {
     let mut line = String::new();
@@ -46,22 +69,10 @@ pub fn worker_main() -> i32 {
         // interleavings and a stride through the single-preemption schedules; the real search
         // reports whether the set grew any further (then the run is not a fixpoint and says so)
         if job.reduced {
-            loop {
-                out.warmup_rounds += 1;
-                let before = schedx::shared_ids().len();
-                let mut st = ExploreStats::default();
-                let roots = schedx::frontier(&mut run, 1, &mut st);
-                let stride = (roots.len() / 48).max(1);
-                for r in roots.into_iter().step_by(stride) {
-                    schedx::explore_subtree(&mut run, r, 0, 40, &mut st);
-                }
-                if !st.failures.is_empty() {
-                    out.stats.merge(st);
-                    break;
-                }
-                if schedx::shared_ids().len() == before || out.warmup_rounds > 6 {
-                    break;
-                }
+            let (rounds, st) = warmup(&mut run);
+            out.warmup_rounds = rounds;
+            if let Some(st) = st {
+                out.stats.merge(st);
             }
         }
         let mut st = ExploreStats::default();
@@ -275,7 +286,17 @@ pub fn run_plans(rep: &mut Report, plans: Vec<Plan>) {
             caps.as_array_mut().unwrap().push(json!(format!("{} cache{}: the shared-object set grew during the bounded search (reduction fixpoint not reached in the warm-up)", p.scn, p.cache)));
             rep.cov("caps_hit", caps);
         }
-        for (choices, msg) in &st.failures {
+        // the candidate set the search ran with (object ids are deterministic ordinals)
+        let mut shared_of_plan: Vec<u64> = known_shared[pi].clone();
+        if let Ok(fo) = &fouts[pi] {
+            for id in &fo.shared {
+                if !shared_of_plan.contains(id) {
+                    shared_of_plan.push(*id);
+                }
+            }
+        }
+        for (fi, (choices, msg)) in st.failures.iter().enumerate() {
+            let shared_of_failure = st.failure_sets.get(fi).cloned().unwrap_or_else(|| shared_of_plan.clone());
             let key = if msg.starts_with("MACHINERY") {
                 rep.machinery_errors.push(format!("{}: {msg}", p.scn));
                 continue;
@@ -291,7 +312,7 @@ pub fn run_plans(rep: &mut Report, plans: Vec<Plan>) {
                     choices.len(),
                     choices.iter().enumerate().filter(|(_, c)| **c != 0).map(|(i, c)| (i, *c)).collect::<Vec<_>>()
                 ),
-                json!({"engine": "schedx", "scenario": p.scn, "cache": p.cache, "choices": choices, "reduced": p.reduced}),
+                json!({"engine": "schedx", "scenario": p.scn, "cache": p.cache, "choices": choices, "reduced": p.reduced, "shared": shared_of_failure}),
             );
         }
         total.merge(st);
